@@ -130,7 +130,7 @@ func encodeServerResponse(w io.Writer, acks []ACK) error {
 				multiAck = true
 			}
 		} else {
-			_, err = pktline.Writef(w, "%s %s\n", ack, acks[0].Hash)
+			_, err = pktline.Writef(w, "%s %s\n", ack, a.Hash)
 		}
 		if err != nil {
 			return err
